@@ -276,6 +276,12 @@ def gen_cases(ctx):
                     out.append({"k": "load", "id": k, "file": fe, "importable": imp, "suffix": suffix, "relative": rel,
                                 "stem": rng.choice(["plug", "my_ibm", "a.b", "x", "spy", "happy"])})
                     k += 1
+    # dotted plug-in names ("drift_v1.1" for the file drift_v1.1.py, with an older sibling drift_v1.py next to it)
+    for stem in ("a.b", "drift_v1.1"):
+        for suffix in (True, False):
+            for rel in (True, False):
+                out.append({"k": "load", "id": k, "file": True, "importable": False, "suffix": suffix, "relative": rel, "stem": stem})
+                k += 1
     for suffix in (True, False):
         for rel in (True, False):
             out.append({"k": "pair", "id": k, "suffix": suffix, "relative": rel, "stem": rng.choice(["plug", "same"])})
@@ -302,6 +308,8 @@ def one_load(d, stem, file, importable, suffix, relative, token):
     idir.mkdir(exist_ok=True)
     if file:
         (pdir / f"{stem}.py").write_text(f'WHO = "{token}"\n')
+        if "." in stem:  # an older sibling whose name is the part before the last dot
+            (pdir / (stem.rsplit(".", 1)[0] + ".py")).write_text('WHO = "sibling"\n')
     # the same-named importable module: only a bare name can be imported at all
     impname = ""
     if importable:
